@@ -219,21 +219,39 @@ def reschedule (m : MState) (order : List Nat) (qs : List (List (Nat × Bool))) 
 
 /-! ### `Master.init_schedule` -/
 
-/-- The reconciliation of one server: delete `current - correct`, put `correct - current`. -/
-def initServer (c' : Cell) (st : Store) (sid : Nat) : List Write :=
+/-- First loop of `init_schedule` for one member: `ensure_exists`, then delete `current - correct`. -/
+def initDelsOf (c' : Cell) (st : Store) (sid : Nat) : List Write :=
   match c'.srv? sid with
   | none => []
   | some s =>
-    let current := st.appsOn sid
-    let correct := sortNat s.apps
-    [.mkNode sid]
-      ++ (current.filter (fun a => !correct.contains a)).map (fun a => .delRec sid a)
-      ++ (correct.filter (fun a => !current.contains a)).filterMap (fun aid =>
-            (c'.app? aid).map (fun a => let d := placementData c' a; .putRec sid aid d.1 d.2.1 d.2.2))
+    [.mkNode sid] ++
+      ((st.appsOn sid).filter (fun a => !(sortNat s.apps).contains a)).map (fun a => .delRec sid a)
 
-/-- `init_schedule`'s loop over `cell.members()` (one pass: per server deletes then puts). -/
+/-- `backend.update(path, _placement_data(app), check_content=True)`: a write only if the stored
+    identity / identity_count / expires differ from the model's. -/
+def republish (c' : Cell) (st : Store) (sid aid : Nat) : Option Write :=
+  match c'.app? aid, st.rec? sid aid with
+  | some a, some r =>
+    let d := placementData c' a
+    if r.identity = d.1 ∧ r.count = d.2.1 ∧ r.expires = d.2.2 then none
+    else some (.putRec sid aid d.1 d.2.1 d.2.2)
+  | _, _ => none
+
+/-- Second loop for one member: put `correct - current`, republish `correct & current` whose
+    content changed. -/
+def initPutsOf (c' : Cell) (st : Store) (sid : Nat) : List Write :=
+  match c'.srv? sid with
+  | none => []
+  | some s =>
+    ((sortNat s.apps).filter (fun a => !(st.appsOn sid).contains a)).filterMap (fun aid =>
+        (c'.app? aid).map (fun a => let d := placementData c' a; .putRec sid aid d.1 d.2.1 d.2.2))
+      ++ ((sortNat s.apps).filter (fun a => (st.appsOn sid).contains a)).filterMap (republish c' st sid)
+
+/-- `init_schedule`'s two loops over `cell.members()`: all removals first, then all creations
+    (the second loop lists each server again; the first one only removed names not in `correct`, so
+    `correct - current` and `correct & current` are the same sets as on the initial store). -/
 def initWrites (c' : Cell) (st : Store) : List Write :=
-  (c'.tree.leaves.flatMap (initServer c' st)) ++ [.saveBlob]
+  c'.tree.leaves.flatMap (initDelsOf c' st) ++ c'.tree.leaves.flatMap (initPutsOf c' st) ++ [.saveBlob]
 
 def initSchedule (m : MState) (qs : List (List (Nat × Bool))) (ch : List Nat) :
     M (MState × List Write) := do
@@ -315,12 +333,22 @@ def restoreFail (c1 : Cell) (a : App) (sid : Nat) (now : Int) (rs : RState) : M 
                                              .delScheduled a.id] }
   else return { rs with cell := c1, writes := rs.writes ++ [.delRec sid a.id] }
 
-/-- `else:` — restored; the recorded identity is forced on request. -/
-def restoreDone (c1 : Cell) (aid : Nat) (restoreIdentity : Bool) (r : PRec) (rs : RState) : M RState := do
+/-- `if app.placement_expiry != expires: self._record_placement(servername, appname)`: a restore
+    that re-evaluated the lease (put branch) republishes the record. -/
+def recordIfChanged (c2 : Cell) (sid aid : Nat) (r : PRec) : List Write :=
+  match c2.app? aid with
+  | some a =>
+    if a.expiry = r.expires then []
+    else let d := placementData c2 a; [.putRec sid aid d.1 d.2.1 d.2.2]
+  | none => []
+
+/-- `else:` — restored; the recorded identity is forced on request, the record follows a new expiry. -/
+def restoreDone (c1 : Cell) (sid aid : Nat) (restoreIdentity : Bool) (r : PRec) (rs : RState) : M RState := do
   let c2 ← (match restoreIdentity, r.identity with
     | true, some k => forceIdentity c1 aid k
     | _, _ => pure c1)
-  return { rs with cell := c2, restored := rs.restored ++ [aid] }
+  return { rs with cell := c2, writes := rs.writes ++ recordIfChanged c2 sid aid r,
+                   restored := rs.restored ++ [aid] }
 
 /-- Body of `for appname in placed_apps` for one instance. -/
 def restoreOne (st : Store) (sid : Nat) (restoreIdentity : Bool) (rs : RState) (aid : Nat) : M RState :=
@@ -331,7 +359,7 @@ def restoreOne (st : Store) (sid : Nat) (restoreIdentity : Bool) (rs : RState) (
     | none => pure rs
     | some r => do
       let t ← restoreAttempt rs.cell a sid (presenceFresh st sid r) r
-      if !t.2 then restoreFail t.1 a sid rs.cell.now rs else restoreDone t.1 aid restoreIdentity r rs
+      if !t.2 then restoreFail t.1 a sid rs.cell.now rs else restoreDone t.1 sid aid restoreIdentity r rs
 
 /-- `Loader.restore_placement(servername, restore_identity)`. Returns cell, writes, restored apps. -/
 def restorePlacement (c : Cell) (st : Store) (sid : Nat) (restoreIdentity : Bool) :
@@ -366,10 +394,16 @@ def dedupOne (aid : Nat) (acc : Cell × List Write) (sid : Nat) : M (Cell × Lis
 def dedupApp (acc : Cell × List Write) (p : Nat × List Nat) : M (Cell × List Write) :=
   p.2.foldlM (dedupOne p.1) acc
 
+/-- "Placement of a server that is not (or no longer) part of the cell is stale": the records under
+    every `/placement/<srv>` whose server is not loaded are deleted first. -/
+def dropUnloaded (c : Cell) (st : Store) : List Write :=
+  (st.servers.filter (fun s => !(c.srvs.map (·.id)).contains s)).flatMap
+    (fun s => (st.appsOn s).map (fun a => Write.delRec s a))
+
 /-- `Loader.restore_placements()`; `order` = iteration order of `self.servers` (recorded). -/
 def restorePlacements (c : Cell) (st : Store) (order : List Nat) : M (Cell × List Write) := do
   if !isPerm order (c.srvs.map (·.id)) then throw "server order is not a permutation of the servers"
-  let ls ← order.foldlM (restoreStep st c.now) ⟨c, [], []⟩
+  let ls ← order.foldlM (restoreStep st c.now) ⟨c, dropUnloaded c st, []⟩
   -- an instance restored on more than one server is removed from all of them
   (ls.integ.filter (fun p => p.2.length > 1)).foldlM dedupApp (ls.cell, ls.writes)
 
@@ -394,7 +428,10 @@ def integrityVisit (c : Cell) (sid : Nat) (is : IState) (aid : Nat) : IState :=
       else
         let w1 : List Write := if a.server ≠ some sid then [.delRec sid aid] else []
         let w2 : List Write := if a.server ≠ some first then [.delRec first aid] else []
-        { is with writes := is.writes ++ w1 ++ w2 }
+        -- the repair is remembered: `app2server[app] = server` when the first record was the wrong one
+        let a2s := if a.server ≠ some first then
+            is.app2server.map (fun p => if p.1 = aid then (aid, sid) else p) else is.app2server
+        { is with writes := is.writes ++ w1 ++ w2, app2server := a2s }
 
 /-- `check_placement_integrity()`: the repairs it performs and whether one of its `assert`s fails
     (the repairs made before a failing assert have happened). -/
